@@ -151,6 +151,9 @@ func c13TinyLayout(r *Rng) c13Layout {
 	if haveText && r.P(2, 3) {
 		lay.secs = append(lay.secs, c13Sec{".text", textAddr})
 	}
+	if r.P(1, 5) {
+		c13ReorderFile(r, &lay)
+	}
 	return lay
 }
 
